@@ -31,7 +31,7 @@ LEVEL_TEXT = (
 LEVEL_NOTE = "Trusted: pmverif/ref/rx.py derivatives and ref/schema.py (generatable / leaf / required-attribute classification)."
 TECHNIQUE = "property-based testing (Hypothesis schemas) x exhaustive match states; existence and minimality decided by BFS over reference derivatives"
 BUDGET = {
-    "quick": {"shards": 8, "examples": 500},
+    "quick": {"shards": 8, "examples": 1200},
     "thorough": {"shards": 16, "examples": 10000},
 }
 
@@ -103,7 +103,7 @@ def _maze_schema(R: Draw, make=None):  # noqa: ANN001, ANN202
 
 def generate(R: Draw, tier: str) -> dict:
     sref = None
-    kind = R.weighted([("maze", 3), ("fill-maze", 3), ("other", 4)])
+    kind = R.weighted([("maze", 4), ("fill-maze", 3), ("other", 3)])
     if kind == "maze":
         sref = _maze_schema(R)
     elif kind == "fill-maze":
